@@ -20,7 +20,7 @@ ASSUMPTIONS = [
     "reference provider protocol (atomic poll) for the 'canceling while in flight / canceled at the last report' clause",
     "known finding D5a: a workflow canceled by the request itself while tasks are only staged has no terminal task",
 ]
-FAM = progs.family(p_loop=0.1, p_late_join=0.0, p_other_abend=0.03, p_fail=0.12, p_item_fail=0.06, p_retry=0.15,
+FAM = progs.family(p_cleanup_fail=0.3, p_loop=0.1, p_late_join=0.0, p_other_abend=0.03, p_fail=0.2, p_item_fail=0.06, p_retry=0.15,
                    n_tasks=(2, 7), w_ctrl=1.0, w_rerun=0.0, w_malformed=0.05, steps=(15, 60), per_task=True)
 
 
